@@ -29,11 +29,13 @@ import (
 )
 
 func (b *backend) Compact(ctx context.Context, revision uint64) (*proto.CompactResponse, error) {
+	verifPoint(b, "compact.beforeRevisionRead", revision)
 	curRevision := b.tso.GetRevision()
 	if revision == 0 || revision > curRevision {
 		revision = curRevision
 	}
 
+	verifPoint(b, "compact.beforeQueueRead", revision)
 	uncertainRev := b.asyncFifoRetry.MinRevision()
 	if uncertainRev != 0 {
 		// head of retry queue is the uncertain event with the least revision.
